@@ -174,6 +174,14 @@ NEUTRAL = {
                             "phase = u.cycle * f * (1 / f - 1 / ref_freq) ** 2 * coeff", ["C05"]),
     "n-c06-common-denominator": ("pulsarbat/transforms/dedispersion.py", "delay = coeff * (1 / f ** 2 - 1 / ref_freq ** 2)",
                                  "delay = coeff / f ** 2 - coeff / ref_freq ** 2", ["C06"]),
+    "n-c02-reordered-ids": ("pulsarbat/core.py", "chan_ids = np.arange(self.nchan) + _align - self.nchan / 2",
+                            "chan_ids = _align - self.nchan / 2 + np.arange(self.nchan)", ["C02"]),
+    "n-c02-maxfreq-expanded": ("pulsarbat/core.py", "return self.center_freq + self.bandwidth / 2",
+                               "return self.center_freq + self.chan_bw * self.nchan / 2", ["C02"]),
+    "n-c01-stop-expanded": ("pulsarbat/core.py", "        return self.start_time + self.time_length",
+                            "        return self.time_length + self.start_time", ["C01"]),
+    "n-c12-start-regrouped": ("pulsarbat/transforms/transforms.py", "new_start = z.start_time - shift * z.dt",
+                              "new_start = z.start_time + (-shift) * z.dt", ["C01", "C12"]),
     "n-dt-mul": ("pulsarbat/core.py", "self.start_time + s.start / self.sample_rate",
                  "self.start_time + s.start * (1 / self.sample_rate)", ["C01"]),
     "n-guess-1.5N": ("pulsarbat/utils.py", "    f7, guess = 1, 2 * N\n", "    f7, guess = 1, N + N // 2 + 1\n", ["C18"]),
